@@ -1,12 +1,15 @@
 (* corr/CorrC41.v — correspondence (agree) and specification (holds) checkers for C41 cases.
-   Two kinds of cases, both produced by POSTing generated remote-write requests (protocol 1.0
-   and 2.0, snappy + protobuf) to the real remote.NewWriteHandler:
+   Four kinds of cases. The first two are produced by POSTing generated remote-write requests
+   (protocol 1.0 and 2.0, snappy + protobuf) to the real remote.NewWriteHandler:
    * RCRec: the handler is backed by a recording appendable whose i-th append call returns a
      scripted outcome; observed = status, written-count headers, the acknowledged append calls
      (label set, timestamp, value), the number of calls, commit / rollback.
    * RCHead: the handler is backed by a real tsdb.Head (exemplar storage on or off); a case is a
      sequence of requests; observed after each = status, headers, everything a querier and an
      exemplar querier return.
+   * RCSym: label sets through the real writev2.SymbolsTable (table and references observed).
+   * RCHist: a native histogram, a sample value and an exemplar value through the real
+     From*Histogram -> proto.Marshal -> proto.Unmarshal -> To{Int,Float}Histogram of either protocol.
    All numbers in case files are primitive 63-bit integers (cheap to parse); strings are
    indices into the case's string table. *)
 From Coq Require Import List ZArith Bool Uint63.
